@@ -1094,10 +1094,13 @@ func (c *Client) resend(conn net.Conn, seqNoOffset uint, seq *seq, space uint) e
 		}
 
 		if seqNo < seq.submitN && packet[0]>>4 == typePUBLISH {
-			packet[0] |= dupeFlag
+			// The flag goes in a copy of the head. Load may expose
+			// the memory of the Persistence itself.
+			head := [1]byte{packet[0] | dupeFlag}
+			err = writeBuffersTo(conn, net.Buffers{head[:], packet[1:]}, c.PauseTimeout)
+		} else {
+			err = writeTo(conn, packet, c.PauseTimeout)
 		}
-
-		err = writeTo(conn, packet, c.PauseTimeout)
 		if err != nil {
 			return err
 		}
